@@ -170,19 +170,24 @@ def paths(fn, assume=(), positive=()):
 
 # ----------------------------------------------------------------------------------------------- Lean emission
 
+def lean_const(v):
+    """a float constant as a Lean decimal literal denoting **exactly** the double (the shortest round-trip representation is used only
+    when it is exact, e.g. 0.5, 0.9375, 12.0; 0.1 or 2/3 are written out in full)"""
+    from decimal import Decimal
+    v = float(v)
+    if v != v or v in (math.inf, -math.inf): raise ValueError('non-finite constant')
+    r = repr(abs(v))
+    if 'e' in r or 'E' in r or Decimal(r) != Decimal(abs(v)):
+        r = format(Decimal(abs(v)), 'f')
+    if '.' not in r: r += '.0'
+    return f'({r} : K)' if v >= 0 and not (v == 0 and math.copysign(1, v) < 0) else f'(-({r} : K))'
+
+
 def lean_expr(s, prim='P'):
     t = s.t if isinstance(s, Sym) else lit(s).t
     k = t[0]
     if k == 'var': return t[1]
-    if k == 'const':
-        v = t[1]
-        if v != v or v in (math.inf, -math.inf): raise ValueError('non-finite constant')
-        r = repr(abs(v))
-        if 'e' in r or 'E' in r:
-            from decimal import Decimal
-            r = format(Decimal(abs(v)), 'f')
-            if '.' not in r: r += '.0'
-        return f'({r} : K)' if v >= 0 and not (v == 0 and math.copysign(1, v) < 0) else f'(-({r} : K))'
+    if k == 'const': return lean_const(t[1])
     b = {'add': '+', 'sub': '-', 'mul': '*', 'div': '/'}
     if k in b: return f'({lean_expr(t[1], prim)} {b[k]} {lean_expr(t[2], prim)})'
     if k == 'neg': return f'(-{lean_expr(t[1], prim)})'
